@@ -159,6 +159,10 @@ class World:
         self.errors = []           # exceptions escaping _receive / express / harness-visible calls
         self.handler_calls = []    # (handler id, interest id)
         self.ivcalls = []          # (interest id) validator invocations for incoming Interests
+        self.ivwho = []            # (interest id, which validator): ('route', handler id) | ('default', generation)
+        self.n_default = 0         # harness validators installed as app.int_validator so far (legacy front-end)
+        self.lib_int_validator = getattr(self.app, 'int_validator', None)     # the library's default, to restore it
+        self.shut_seen = False
         self.validated_before = {}
         self.int_wire2k = {}
         self.cur_k = None
@@ -341,6 +345,10 @@ class World:
     def ev_shutdown(self):
         def fn():
             self.app.shutdown()
+            if self.fe == 'v1' and not self.shut_seen:
+                # handler ids are positions in the route table; the legacy clean-up empties that table
+                self.n_attach = 0
+            self.shut_seen = True
         return fn
 
     # -- incoming Interests (C05 second half) -------------------------------------------------
@@ -357,6 +365,7 @@ class World:
 
                 async def validator(name, sig, context):
                     world.ivcalls.append(world.cur_k)
+                    world.ivwho.append((world.cur_k, ('route', h)))
                     return world.verdict_value(world.cur_verdict)
                 self.app.attach_handler(pfx, handler, validator if has_validator else None)
             else:
@@ -366,8 +375,29 @@ class World:
 
                 async def validator(name, sig):
                     world.ivcalls.append(world.cur_k)
+                    world.ivwho.append((world.cur_k, ('route', h)))
                     return world.verdict_value(world.cur_verdict)
                 self.app.set_interest_filter(pfx, handler, validator if has_validator else None)
+        return fn
+
+    def ev_setdefault(self, own):
+        """Legacy front-end: replace the application-wide Interest validator (documented attribute app.int_validator)
+        by a fresh harness validator (own) or put the library's default back.  appv2 has no such attribute: nothing."""
+        def fn():
+            if self.fe != 'v1':
+                return
+            world = self
+            if own:
+                g = self.n_default
+                self.n_default += 1
+
+                async def validator(name, sig):
+                    world.ivcalls.append(world.cur_k)
+                    world.ivwho.append((world.cur_k, ('default', g)))
+                    return world.verdict_value(world.cur_verdict)
+                self.app.int_validator = validator
+            else:
+                self.app.int_validator = self.lib_int_validator
         return fn
 
     def interest_wire(self, name, has_params, sig, digest_ok):
@@ -426,6 +456,10 @@ class World:
             self.position(t, 0)
             self.apply(self.ev_interest(k, name, has_params, sig, digest_ok, verdict), 0)
             return
+        if tag == 'setdefault':
+            self.position(ev[2], 0)
+            self.apply(self.ev_setdefault(ev[1]), 0)
+            return
         t, tie = ev[-2], ev[-1]
         if tag == 'express':
             fn = self.ev_express(*ev[1:7])
@@ -483,6 +517,7 @@ class World:
             'vcalls': list(self.vcalls),
             'handler_calls': list(self.handler_calls),
             'ivcalls': list(self.ivcalls),
+            'ivwho': list(self.ivwho),
             'validated_before': dict(self.validated_before),
         }
         return obs
@@ -507,7 +542,22 @@ class World:
             asyncio.set_event_loop(None)
 
 
+_GC_CASES = [0]
+
+
+def _gc_housekeeping():
+    """Every case ends with two gc.collect() (asyncio reports a never-retrieved exception when the future is
+    collected).  A full collection scans every tracked object, most of which are long-lived (modules, evidence
+    counters); every 64 cases those are moved to the permanent generation (after a full collection, so no garbage is
+    frozen) and the per-case collections only look at what the cases allocated since."""
+    if _GC_CASES[0] % 64 == 0:
+        gc.collect()
+        gc.freeze()
+    _GC_CASES[0] += 1
+
+
 def run_impl(frontend, history):
+    _gc_housekeeping()
     dig_of = {}
     for ev in history:
         if ev[0] == 'data':
@@ -565,6 +615,8 @@ def m_event(fe, ev):
     if tag == 'interest':
         _, k, name, hp, sig, dok, verdict, t = ev
         return [0, [9, k, list(name), hp, sig, dok, m_verdict(fe, verdict), t]]
+    if tag == 'setdefault':
+        return [0, [10, ev[1], ev[2]]]
     raise ValueError(tag)
 
 
@@ -631,6 +683,7 @@ def canon_impl(fe, obs):
         'vcalls': sorted((i, -1 if d is None else d) for i, d in obs['vcalls']),
         'handler_calls': [tuple(x) for x in obs['handler_calls']],
         'ivcalls': list(obs['ivcalls']),
+        'ivwho': list(obs.get('ivwho', [])),
         'validated_before': obs.get('validated_before', {}),
     }
 
@@ -660,7 +713,7 @@ def compare(ctx, site, fe, h, m, r):
     elif m['handler_calls'] != r['handler_calls']:
         bad('handler invocations', m['handler_calls'], r['handler_calls'])
     elif m['ivcalls'] != r['ivcalls']:
-        bad('route validator invocations', m['ivcalls'], r['ivcalls'])
+        bad('invocations of application-supplied Interest validators', m['ivcalls'], r['ivcalls'])
     return ok
 
 
@@ -677,7 +730,8 @@ def is_wf(h):
     while k < len(h):
         ev = h[k]
         tag = ev[0]
-        t = ev[1] if tag == 'advance' else (ev[3] if tag == 'attach' else (ev[7] if tag == 'interest' else ev[-2]))
+        t = (ev[1] if tag == 'advance' else ev[3] if tag == 'attach' else ev[7] if tag == 'interest'
+             else ev[2] if tag == 'setdefault' else ev[-2])
         if t < t_last:
             return False
         t_last = t
@@ -983,7 +1037,7 @@ def check_history(ctx, fe, h, tag, prop, with_oracle=True):
                       f'internal error on a history outside the theorems\' quantifier: {r["errors"]} {r["loop_errors"]}',
                       {'frontend': fe, 'history': h})
     n_int = len(expressed_ids(h))
-    ties = sum(1 for e in h if e[0] not in ('advance', 'attach', 'interest') and e[-1] != 0)
+    ties = sum(1 for e in h if e[0] not in ('advance', 'attach', 'interest', 'setdefault') and e[-1] != 0)
     ctx.case((fe, tuple(map(repr, h))), n_int > 0 and len(h) > 2,
              {'frontend': fe, 'tag': tag, 'history': h, 'model': m['completion'], 'impl': r['completion']},
              f'{fe}.{tag}')
